@@ -58,7 +58,19 @@ func (o *Oblig) smt2() string {
 	return b.String()
 }
 
+// solverSem bounds the number of solver processes running at once.
+var solverSem = make(chan struct{}, 16)
+
 func runSolver(ctx context.Context, sp solverSpec, file string, secs int) (status, out string, dur float64) {
+	select {
+	case solverSem <- struct{}{}:
+	case <-ctx.Done():
+		return "unknown", "cancelled", 0
+	}
+	defer func() { <-solverSem }()
+	if ctx.Err() != nil {
+		return "unknown", "cancelled", 0
+	}
 	t0 := time.Now()
 	cctx, cancel := context.WithTimeout(ctx, time.Duration(secs+2)*time.Second)
 	defer cancel()
